@@ -38,7 +38,10 @@ def run(model: Model, rep: Report) -> None:
     se.calls = calls
     try:
         for n in ("mult_matrix", "translate_matrix", "apply_matrix_pt", "apply_matrix_norm"):
-            calls[n] = se.function(fns[n].node)  # type: ignore[arg-type]
+            general, problems = _special_cases(fns[n].node, se)
+            for pr in problems:
+                r1.violation(site(fns[n]), fns[n].qualname, f"{n}: special-case branch", pr)
+            calls[n] = se.function(general)  # type: ignore[arg-type]
         mult, trans, appt, apnorm = (calls[n] for n in ("mult_matrix", "translate_matrix", "apply_matrix_pt", "apply_matrix_norm"))
         A, B, C = _vars("a", 6), _vars("b", 6), _vars("c", 6)
         P = _vars("p", 2)
@@ -89,6 +92,59 @@ def run(model: Model, rep: Report) -> None:
         r2.violation(site(f), f.qualname, "(min X, min Y, max X, max Y) over images of the four corners", f"cannot be evaluated symbolically: {ex}")
 
     _plane(model, rep)
+    _getrange_clamp(model, rep)
+
+
+def _special_cases(fn: ast.AST, se: SymEval):
+    """A helper may shortcut special operands (`if (a1, b1, c1, d1) == (1, 0, 0, 1): return ...`).  Such a branch is sound iff
+    its result equals the general formula with the condition substituted.  Returns the function without those branches (for
+    the law checks) and the list of branches that disagree with it (or whose condition is not a conjunction of name == constant)."""
+    import copy
+
+    body = list(fn.body)  # type: ignore[attr-defined]
+    idx = [i for i, st in enumerate(body) if isinstance(st, ast.If) and not st.orelse and len(st.body) == 1 and isinstance(st.body[0], ast.Return)]
+    if not idx:
+        return fn, []
+    general = copy.copy(fn)
+    general.body = [st for i, st in enumerate(body) if i not in idx]  # type: ignore[attr-defined]
+    problems: List[str] = []
+    for i in idx:
+        st = body[i]
+        subst: Dict[str, ast.AST] = {}
+        ok = True
+        parts = st.test.values if isinstance(st.test, ast.BoolOp) and isinstance(st.test.op, ast.And) else [st.test]
+        for t in parts:
+            if isinstance(t, ast.Compare) and len(t.ops) == 1 and isinstance(t.ops[0], ast.Eq):
+                l, r = t.left, t.comparators[0]
+                if isinstance(l, ast.Tuple) and isinstance(r, ast.Tuple) and len(l.elts) == len(r.elts) and all(isinstance(a, ast.Name) and isinstance(b, ast.Constant) for a, b in zip(l.elts, r.elts)):
+                    subst.update({a.id: b for a, b in zip(l.elts, r.elts)})  # type: ignore[union-attr]
+                    continue
+                if isinstance(l, ast.Name) and isinstance(r, ast.Constant):
+                    subst[l.id] = r
+                    continue
+            ok = False
+        if not ok:
+            problems.append(f"`if {ast.unparse(st.test)}` returns early under a condition that is not a conjunction of `name == constant`: the laws cannot be decided for that branch")
+            continue
+        prefix = body[:i]
+        fix = [ast.Assign(targets=[ast.Name(id=k, ctx=ast.Store())], value=v) for k, v in subst.items()]
+        for x in fix:
+            ast.fix_missing_locations(ast.copy_location(x, st))
+        arm_fn = copy.copy(fn)
+        arm_fn.body = prefix + fix + [st.body[0]]  # type: ignore[attr-defined]
+        gen_fn = copy.copy(fn)
+        gen_fn.body = prefix + fix + [s2 for j, s2 in enumerate(body) if j > i and j not in idx]  # type: ignore[attr-defined]
+        nargs = len(fn.args.args)  # type: ignore[attr-defined]
+        args = [tuple(Poly.var(f"{a.arg}_{k}") for k in range(6)) for a in fn.args.args]  # type: ignore[attr-defined]
+        try:
+            va, vg = se.function(arm_fn)(*args), se.function(gen_fn)(*args)  # type: ignore[arg-type]
+        except (NotPolynomial, TypeError, ValueError):
+            # operands that are points (2 components), not matrices
+            args = [tuple(Poly.var(f"{a.arg}_{k}") for k in range(6 if j == 0 else 2)) for j, a in enumerate(fn.args.args)]  # type: ignore[attr-defined]
+            va, vg = se.function(arm_fn)(*args), se.function(gen_fn)(*args)  # type: ignore[arg-type]
+        if va != vg:
+            problems.append(f"under `{ast.unparse(st.test)}` the shortcut returns {va!r} but the general formula gives {vg!r}: composition with such an operand no longer equals applying the factors in turn")
+    return general, problems
 
 
 def _canon_set(test: ast.AST, aliases: Dict[str, str], negate: bool) -> Set[Tuple[str, str, str]]:
@@ -255,6 +311,29 @@ def drange_rule(model: Model, rep: Report, rid: str) -> None:
         p2 = floordiv_of(up.left)
         ok_up = p2 is not None and p2 == v1
     r5.check(ok_lo and ok_up, site(dr, ret), dr.qualname, "range(floor(v0) // d, floor(v1 + d) // d)", why=f"returns `{unparse(ret.value)}`: the last (or first) cell of an interval is left out for some coordinates, so an object lying in it is never found")
+
+
+def _getrange_clamp(model: Model, rep: Report) -> None:
+    r8 = rep.rule("C20-R8", "NORMFORM", "Plane._getrange clamps each coordinate of the query with the plane's bound on the same axis and side", 4)
+    f = model.func("pdfminer.utils.Plane._getrange")
+    pname = f.params[1] if len(f.params) > 1 else "bbox"
+    al = param_unpack(f, pname)  # local -> bbox[i]
+    idx = {v.replace(pname, "").strip("[]"): k for k, v in al.items()}
+    want = {"0": ("max", "self.x0"), "1": ("max", "self.y0"), "2": ("min", "self.x1"), "3": ("min", "self.y1")}
+    found = 0
+    for n in walk_no_nested(f.node):
+        if not (isinstance(n, ast.Assign) and isinstance(n.targets[0], ast.Name) and isinstance(n.value, ast.Call) and (dotted(n.value.func) or "") in ("min", "max") and len(n.value.args) == 2):
+            continue
+        t = n.targets[0].id
+        comp = al.get(t, "").replace(pname, "").strip("[]")
+        if comp not in want:
+            continue
+        found += 1
+        fn_, bound = want[comp]
+        args = sorted(unparse(a) for a in n.value.args)
+        r8.check((dotted(n.value.func) or "") == fn_ and args == sorted([bound, t]), site(f, n), f.qualname, f"{t} = {fn_}({bound}, {t})", why=f"`{unparse(n)}`: the {['left', 'bottom', 'right', 'top'][int(comp)]} edge of the query is clamped with another bound; for a plane whose x- and y-bounds differ objects are filed under the wrong cells or none")
+    if found < 4:
+        r8.violation(site(f), f.qualname, "four clamping assignments", f"only {found} found")
 
 
 def plane_membership_rule(model: Model, rep: Report, rid: str) -> None:
